@@ -46,6 +46,10 @@ try:
     elif group == "e3_k12_framing":
         lib = X.Mir(os.path.join(os.path.dirname(mirf), "lib.mir"))
         E.k12_output_framing(lib, rep)
+    elif group == "e3_k14_detect_flush":
+        lib = X.Mir(os.path.join(os.path.dirname(mirf), "lib.mir"))
+        E.k14_detect_order(lib, rep)
+        E.k15_flush(lib, rep)
     elif group == "e3_k13_trials":
         X.load_enums(os.path.join(src, "src/input.rs"))
         lib = X.Mir(os.path.join(os.path.dirname(mirf), "lib.mir"))
